@@ -1,0 +1,8 @@
+//go:build verif
+
+package tmstate
+
+import "github.com/gordian-engine/gordian/tm/tmengine/internal/tmstate/internal/tsi"
+
+// VerifCommitProofFinalizer exposes tsi.CommitProofFinalizer to the verification harness.
+type VerifCommitProofFinalizer = tsi.CommitProofFinalizer
